@@ -31,14 +31,16 @@ CONFIGS = {
     "C13": {
         "quick": [("c1", "channel", "NoWakers", "S_c1", "M_c1"),
                   ("c2g", "channel", "NoWakers", "S_c2", "M_cg"),
-                  ("c1g2", "channel", "NoWakers", "S_c1", "M_cg2")],
+                  ("c1g2", "channel", "NoWakers", "S_c1", "M_cg2"),
+                  ("c1far", "channel", "WB_far", "S_c1", "M_c1")],
         "thorough": [("c3g", "channel", "NoWakers", "S_c3", "M_cg"),
                      ("c2", "channel", "NoWakers", "S_c2", "M_c1")],
     },
     "C14": {
         "quick": [("p1", "piped", "NoWakers", "S_p1", "M_pp1"),
                   ("p3", "piped", "NoWakers", "S_p3", "M_pp2"),
-                  ("p2", "piped", "NoWakers", "S_p2", "M_pp3")],
+                  ("p2", "piped", "NoWakers", "S_p2", "M_pp3"),
+                  ("p1far", "piped", "WB_far", "S_p3", "M_pp2")],
         "thorough": [("p4", "piped", "NoWakers", "S_p4", "M_pp1"),
                      ("p5", "piped", "NoWakers", "S_p5", "M_pp3")],
     },
@@ -250,10 +252,17 @@ def run(prop, tier, seed, replay=None):
                 cases.append(syncexport.build_case(b, "%s-%d" % (name, i)))
         # random scripts under random schedules
         rng = random.Random(seed * 7919 + 13)
-        nr = 150 if tier == "quick" else 3000
+        nr = 900 if tier == "quick" else 12000
         for i in range(nr):
             c = rand_scripts(rng, kind)
-            c.update({"case": "rand-%d-%d" % (seed, i), "schedule": [], "seed": seed * 100000 + i, "fallback": "rand"})
+            if i % 3 == 0:
+                c.update({"case": "rand-%d-%d" % (seed, i), "schedule": [], "seed": seed * 100000 + i, "fallback": "rand"})
+            else:
+                # PCT: random thread priorities, 1-3 priority change points
+                c.update({"case": "pct-%d-%d" % (seed, i), "schedule": [], "seed": seed * 100000 + i, "fallback": "pct",
+                          "change": sorted(rng.sample(range(1, 46), rng.choice([1, 1, 2, 2, 3])))})
+            if kind != "waker" and rng.random() < 0.15:
+                c["fillers"] = 4095
             cases.append(c)
     for c in cases:
         c["props"] = [prop]
